@@ -7,8 +7,9 @@ CHECKS = {
  'C16': dict(engine='E1-choice-tree', design_ref='7/C16',
    technique='exhaustive small-scope enumeration of strings, dictionaries and queries against a naive reference tokenizer/matcher',
    text='Every string up to length 6 (thorough 7) over a 7-symbol alphabet through both tokenizers, and every dictionary of 1-2 '
-        'phrases x every query up to length 5 x both tokenizers x 3 init forms through the real StringMatcher, compared with a '
-        'naive reference on every leaf. Small-scope exhaustiveness is the right level: the trie and tokenizers have no state '
+        'phrases x every query up to length 5 x both tokenizers x 4 init forms through the real StringMatcher, compared with a '
+        'naive reference on every leaf; a write monitor on find() and two callers on one freshly initialised matcher under every '
+        'schedule with <= 1 (thorough 2) preemptions at every function entry of the matcher package. Small-scope exhaustiveness is the right level: the trie and tokenizers have no state '
         'beyond a few characters of context.',
    note=BASE_NOTE + 'Alphabet abstraction: one representative per character class the tokenizers distinguish.'),
  'C03': dict(engine='E1-choice-tree', design_ref='7/C03',
@@ -22,14 +23,14 @@ CHECKS = {
    technique='exhaustive enumeration of address/GUID/sequence literal shapes against own grammar rules and ipaddress',
    text='IPv4: per octet position every spelling 0..999 and zero-padded forms x boundary octets; IPv6: every "::" position and length, '
         'every hextet spelling of length 1-4 over {0,1,a,F} at every position, near-misses; GUID: every hex digit at every position x 4 '
-        'layouts x case; several addresses per query; e-mail, URL (every listed TLD), hashtag, mention, phone templates with all digit fillings. Completeness and '
+        'layouts x case; first-use write monitor for every sequence model; several addresses per query; e-mail, URL (every listed TLD), hashtag, mention, phone templates with all digit fillings. Completeness and '
         'soundness are checked on every leaf; workers keep one model for the whole run, so stale-state defects surface as '
         'history-dependent failures.',
    note=BASE_NOTE + 'ipaddress (standard library) is the address oracle.'),
  'C14': dict(engine='E1-choice-tree', design_ref='7/C14',
    technique='exhaustive enumeration of the TIMEX grammar over field boundary sets, parse/format/parse fixpoint',
    text='Every TIMEX form of the statement with all months, days 01-31, weeks 01-53, all 86,400 times of day, years from boundary sets '
-        '(thorough: every 7th year 0001-9999), durations, date+time combinations and from_date/from_date_time/from_time, checked for '
+        '(thorough: every 7th year 0001-9999), durations (amounts up to 31 significant digits under ambient decimal precisions 28/15/6), date+time combinations and from_date/from_date_time/from_time, checked for '
         'field-preserving round trip, idempotent formatting and canonical identity against an independent formatter; plus every '
         '<=1-preemption schedule of two threads round-tripping two TIMEXes.',
    note=BASE_NOTE),
@@ -50,7 +51,7 @@ CHECKS = {
  'C07': dict(engine='E1-choice-tree', design_ref='7/C07',
    technique='exhaustive enumeration of clock-time spellings and date+time compositions, with one-step call histories on the warm model',
    text='All 24x60 HH:MM with 5 second variants (thorough all 86,400), all 12-hour spellings x 8 markers, o\'clock forms, 24-hour forms of 7 '
-        'other cultures, and <date> at <time> for 7 absolute/relative date expressions x 40 boundary times x 4 references, each also '
+        'other cultures, and <date> at <time> for 9 date expressions (absolute, relative, and the two-candidate families bare weekday and month/day without year: every candidate date must get every reading) x 40 boundary times x 4 references, each also '
         'after a related part-of-day query on the same warm model (non-initial state). Oracle: one reading for hour 0/13-23 or a '
         'marker, exactly two readings otherwise; composed datetimes by datetime arithmetic.',
    note=BASE_NOTE),
@@ -71,14 +72,16 @@ CHECKS = {
  'C10': dict(engine='E1-choice-tree', design_ref='7/C10',
    technique='exhaustive enumeration of N x units and of ordered endpoint pairs; arithmetic invariant on every (start,end,duration) triple',
    text='N x 7 units x 3 carriers for durations; every ordered pair of 12 dates (2 layouts, 3 connectors), 10 clock times and 6 datetimes '
-        'for ranges; plus the triple-consistency invariant evaluated on every entity the date-time model emits for every '
+        'for ranges, endpoints written to the minute and to the second; plus the triple-consistency invariant evaluated on every entity the date-time model emits for every '
         'Python-supported Specs input of every culture.',
    note=BASE_NOTE),
  'C01': dict(engine='E1-choice-tree', design_ref='7/C01',
    technique='exhaustive enumeration of token sequences over a closed pool x all 81 registered models; span invariant with an independent normaliser',
    text='Every registered (model, culture) pair is run on every Python-supported Specs model input of its culture, on every 2-token '
         '(and head 3-token) sequence over a closed per-culture pool (spec-derived words, numerals, punctuation, full-width forms, every '
-        'code point whose lower-casing changes the string length) and on pairs/triples of spec-derived entity expressions; each '
+        'code point whose lower-casing changes the string length) and on pairs/triples of spec-derived entity expressions, on every spec input continued by / preceded by one entity expression of a closed '
+        'per-culture pool, and on the merged extractor\'s number-ending rule; two callers per model family under every <=1-preemption schedule and a '
+        'write monitor over all 81 registered models (no call may write to the cached model); each '
         'returned entity must satisfy 0 <= start <= end < len(q) and normalised text == normalised slice.',
    note=BASE_NOTE + 'Quick tier: a seed-rotated third of the spec inputs meets every model, the rest the models of their own recogniser.'),
  'C04': dict(engine='E1-choice-tree', design_ref='7/C04',
@@ -90,19 +93,20 @@ CHECKS = {
         'the culture maps. pt/it/nl have no generator.'),
  'C05': dict(engine='E1-choice-tree', design_ref='7/C05',
    technique='exhaustive enumeration of the run-time unit tables (every unit spelling of every registered model) and of fraction pairs',
-   text='All (model, culture, unit, spelling) entries wired into the 33 registered number-with-unit models x numerals x carriers, and all '
-        'main/fraction currency pairs x 4 amounts x connectors; oracle derived from the tables themselves (any unit listing the spelling '
+   text='All (model, culture, unit, spelling) entries wired into the 33 registered number-with-unit models x numerals (incl. the boundary numeral 0) x carriers, and all '
+        'main/fraction currency pairs x 6 amounts (incl. zero) x connectors; oracle derived from the tables themselves (any unit listing the spelling '
         'is accepted) and the number model.',
    note=BASE_NOTE + 'About 4% of the table entries fail on the unchanged tree and are listed one by one in known_findings.json.'),
  'C11': dict(engine='E1-choice-tree', design_ref='7/C11',
    technique='invariant evaluated on every entity of an exhaustive sweep: spec inputs x references, expression pool x reference days, non-existent dates',
    text='Well-formedness and TIMEX agreement of every resolution value on every Python-supported Specs date-time input of 9 cultures under 5 '
         'references, ~150 generated expressions under every 3rd day of a leap year plus year boundaries 1950-2090, non-existent '
-        'calendar dates in 10 layouts, and every <=1-preemption schedule of two callers with expressions of different kinds.',
+        'calendar dates in 10 layouts, a closed duration grammar over every unit word of every culture\'s unit table (seconds must equal a W/D/H/M/S '
+        'TIMEX), every pair of bare hours as a range on a date, and every <=1-preemption schedule of two callers with expressions of different kinds.',
    note=BASE_NOTE),
  'C12': dict(engine='E1-choice-tree', design_ref='7/C12',
    technique='same exhaustive exploration as C01; interval-disjointness invariant on the entities of each model call',
-   text='Every registered model on spec inputs, token sequences and pairs/triples of entity expressions joined by separators (adjacency is '
+   text='Every registered model on spec inputs, spec inputs extended by a neighbour entity, the number-ending rule, token sequences and pairs/triples of entity expressions joined by separators (adjacency is '
         'what makes sub-extractors collide); entities of one call sorted by start must satisfy end_i < start_(i+1).',
    note=BASE_NOTE),
  'C02': dict(engine='E3-scheduler', design_ref='7/C02',
@@ -118,11 +122,11 @@ CHECKS = {
    text='resolve(): 7 weekdays x 2 reference windows (mid-year, New Year) x 3 years, 7 units x 8 amounts, all months x 5 years incl. December, '
         'well-formedness of every entry for 10 TIMEX forms; evaluate(): all candidate sets of size 1-2 from 9 candidates x all constraint '
         'sets of size 1-2 (thorough 3) from 8 date ranges x 5 time-range choices, each result checked for definiteness, membership '
-        'in a constraint, instance-of-candidate, and completeness for weekday x single range.',
+        'in a constraint, instance-of-candidate, and completeness for weekday x single range, also after an earlier evaluation with an overlapping range in the same process.',
    note=BASE_NOTE),
  'C17': dict(engine='E2-state-search', design_ref='7/C17',
    technique='explicit-state exploration of the real model cache: all depth-1 requests and all request sequences to depth 2-3, reference routing/cache model in lock-step',
-   text='7,000+ depth-1 requests (16 getters x ~130 culture strings in 5 casings x fallback x target culture x eager flag x options) from the '
+   text='7,000+ depth-1 requests (16 getters x ~160 culture strings incl. unknown tags that begin with a supported language\'s letters, in 5 casings x fallback x target culture x eager flag x options) from the '
         'cold cache, and every sequence of 2 (thorough 3) requests over a 144-request alphabet on long-lived recogniser objects; on every '
         'transition: which registered constructor built the answer (or ValueError), object identity per cache key, and real cache key set '
         '== reference model state.',
